@@ -425,8 +425,48 @@ func (s safePlan) Exec(w Window) (st []string, err error) {
 	return s.Plan.Exec(w)
 }
 
+// ---- the ClickHouse planner called directly (exported clickhouse_planner.Plan with the WHOLE script, no
+// breakpoint analysis): reaches planners that Transpile never instantiates (LineFormatPlanner) -----------------------
+
+type chPlan struct {
+	s       Spec
+	planner shared.SQLRequestPlanner
+	conn    *model.DataDatabasesMap
+}
+
+func newCHPlan(s Spec) (Plan, error) {
+	script, err := logql_parser.Parse(s.Q)
+	if err != nil {
+		return nil, err
+	}
+	pl, err := clickhouse_planner.Plan(script, true)
+	if err != nil {
+		return nil, err
+	}
+	_, conn := registry(s.Cluster, nil)
+	return &chPlan{s: s, planner: pl, conn: conn}, nil
+}
+
+func (p *chPlan) Exec(w Window) ([]string, error) {
+	pc := tables.PopulateTableNames(&shared.PlannerContext{
+		IsCluster: p.s.Cluster, From: w.From, To: w.To, OrderASC: p.s.Fwd, Limit: p.s.Limit, Ctx: context.Background(),
+		CHFinalize: true, Step: time.Duration(p.s.StepMs) * time.Millisecond, CHSqlCtx: sqlCtx(), VersionInfo: versionInfo,
+	}, p.conn)
+	sel, err := p.planner.Process(pc)
+	if err != nil {
+		return nil, err
+	}
+	str, err := render(sel, p.s.Cluster)
+	if err != nil {
+		return nil, err
+	}
+	return []string{str}, nil
+}
+
 func newPlan(s Spec) (Plan, error) {
 	switch {
+	case s.Kind == "logql_chplan":
+		return newCHPlan(s)
 	case s.Kind == "logql":
 		return newLogQL(s)
 	case s.Kind == "series":
